@@ -55,6 +55,16 @@ pub fn run(ctx: &mut Ctx) {
                 }
             }
             c.push("D decode".into());
+            // dropping the result started a new round: nothing of the finished round is left, so a second
+            // `decode` / `encode` before any add must answer "no shards yet", not with the old round
+            if ctx.rng.chance(1, 3) {
+                c.push("D decode".into());
+                ctx.count("probe_after_drop", "decode");
+            }
+            if ctx.rng.chance(1, 4) {
+                c.push("E encode".into());
+                ctx.count("probe_after_drop", "encode");
+            }
         }
         ctx.count("rounds", &rounds.to_string());
         ctx.count("kind", &cfg.kind);
